@@ -34,6 +34,9 @@ func ApplyExtensions() {
 	extensionsDone = true
 	extend("C15", c15LoopVars)
 	extend("C23", c23Successor)
+	for _, e := range extraExtensions {
+		extend(e.id, e.fn)
+	}
 }
 
 // c15LoopVars: the per-event check result must carry the event and position of its own iteration.
